@@ -137,12 +137,14 @@ def render(rng, vars_: dict):
     """distribute declarations over root, a nested dict and an included file; returns files, root name, placement"""
     order = list(vars_)
     rng.shuffle(order)
-    place = {nm: rng.choice(["top", "top", "nested", "incl"]) for nm in order}
+    place = {nm: rng.choice(["top", "top", "nested", "incl", "inlist"]) for nm in order}
     syntax = rng.choice(["native", "native", "json"])
     incl_syntax = rng.choice(["native", "json"])
     top = [nm for nm in order if place[nm] == "top"]
     nested = [nm for nm in order if place[nm] == "nested"]
     inc = [nm for nm in order if place[nm] == "incl"]
+    inlist = [nm for nm in order if place[nm] == "inlist"]
+    lkind = rng.choice(["direct", "deep"])          # the dict is an item of a list / of a list inside a list
     files = {}
     inc_name = "inc.json" if incl_syntax == "json" else "inc"
     if incl_syntax == "json":
@@ -157,6 +159,9 @@ def render(rng, vars_: dict):
             d[nm] = json_value(vars_[nm])
         if nested:
             d["sub"] = {"deeper": {nm: json_value(vars_[nm]) for nm in nested}}
+        if inlist:
+            inner = {nm: json_value(vars_[nm]) for nm in inlist}
+            d["table"] = [7, inner, 8] if lkind == "direct" else [[1, inner], [2, 3]]
         files["root.json"] = _json.dumps(d, indent=1)
         root = "root.json"
     else:
@@ -168,6 +173,9 @@ def render(rng, vars_: dict):
             lines.append(f"{nm} {spell(vars_[nm])};\n")
         if nested:
             lines.append("sub\n{\n  deeper\n  {\n" + "".join(f"    {nm} {spell(vars_[nm])};\n" for nm in nested) + "  }\n}\n")
+        if inlist:
+            inner = "{ " + " ".join(f"{nm} {spell(vars_[nm])};" for nm in inlist) + " }"
+            lines.append(f"table ( 7 {inner} 8 );\n" if lkind == "direct" else f"table ( ( 1 {inner} ) ( 2 3 ) );\n")
         if inc and not any(l.startswith("#include") for l in lines):
             lines.append(f"#include '{inc_name}'\n")
         for nm in top[half:]:
@@ -181,9 +189,17 @@ def render(rng, vars_: dict):
 
 def flatten(d, out=None):
     out = {} if out is None else out
+    def walk_list(xs):
+        for x in xs:
+            if isinstance(x, dict):
+                flatten(x, out)
+            elif isinstance(x, list):
+                walk_list(x)
     for k, v in d.items():
         if isinstance(v, dict):
             flatten(v, out)
+        elif isinstance(v, list) and k == "table":
+            walk_list(v)
         else:
             out[k] = v
     return out
